@@ -64,6 +64,9 @@ ASSUMPTIONS = [
     "`select`, theorems `select_eval`, `select_cmp_eval`): equal to the selected branch wherever BOTH branches are defined; "
     "a point where the branch that is not taken is undefined is an undefined point of the reference and is skipped (the "
     "generator types both branches as defined on the whole grid)",
+    "a complex-TYPED result whose imaginary part is at most 1e-12 of its real part (three orders of magnitude below the "
+    "comparison tolerance; sympy's evalf returns 0.4497140385544759+6.2e-18j for a real atan2) is compared by its real part "
+    "and counted (`complex_typed_results`); a larger imaginary part is a wrong value",
     "`depends_on(v)` is judged between two bounds: it must be False for a variable the (selected) components do not mention "
     "and True for one whose change visibly changes their value; in between (`x - x`) sympy's simplification decides",
 ]
@@ -206,8 +209,11 @@ def gen_scalar_program(rng, i, jit):
         family = "abs-of-exponential"
         a = gen.gen(2, "small")
         v = X.var(rng.choice(sorted(variables)))
-        form = rng.choice(["abs-exp", "abs-2pow", "abs-x-exp", "exp-abs-exp"])
-        if form == "abs-exp":
+        form = rng.choice(["abs-exp", "abs-2pow", "abs-x-exp", "exp-abs-exp", "abs-exp-tanh-large"])
+        if form == "abs-exp-tanh-large":
+            # sympy rewrites Abs(exp(tanh(z))) with sinh / cosh of 2*re(z): overflow for |z| > 355 (finding, see notes)
+            e = X.un("call1", X.un("call1", X.un("neg", X.un("call1", X.bi("mul", X.num(rng.choice(["250", "2.5e2", "400"])), v), f="tanh")), f="exp"), f="abs")
+        elif form == "abs-exp":
             e = X.un("call1", X.un("call1", a, f="exp"), f="abs")
         elif form == "abs-2pow":
             e = X.un("call1", X.bi("call2", X.num(rng.choice(["2", "3", "0.5"])), a, f="pow"), f="abs")
@@ -2214,6 +2220,35 @@ def simplify_flips_inequality(p, ipt):
         return False
 
 
+def sympy_form_overflows(p, ipt):
+    """True if sympy's own form of the (scalar, user-function free) formula - parsed and simplified by sympy alone, no
+    py-pde involved - evaluates to a non-finite number at point `ipt` (where the reference value is finite: the caller
+    asks only for compared points): without real assumptions sympy evaluates `Abs(exp(-tanh(250*x)))` to
+    `exp(-sinh(500*re(x))/(2*cos(250*im(x))**2 + cosh(500*re(x)) - 1))`, which is inf/inf for x > 1.42"""
+    if p["rank"] != 0 or not isinstance(p.get("ast"), dict) or ipt is None or p.get("ufuncs"):
+        return False
+    try:
+        import warnings
+
+        import numpy as np
+        import sympy
+
+        used = X.symbols(p["ast"])
+        env = {n: v for n, v in env_of(p, ipt).items() if n in used}
+        if any(isinstance(v, (list, tuple)) for v in env.values()) or X.kinds(p["ast"]) & {"idx", "heav1", "heav2", "call2:hypot"}:
+            return False
+        names = sorted(env)
+        syms = {n: sympy.Symbol(n) for n in names}
+        expr = sympy.simplify(sympy.parse_expr(p["texts"], local_dict=dict(syms)))
+        with warnings.catch_warnings():
+            warnings.simplefilter("ignore")
+            v1 = complex(sympy.lambdify([syms[n] for n in names], expr, modules=[{"re": np.real, "im": np.imag}, "numpy"])(
+                *[env[n] for n in names]))
+        return not bool(np.isfinite(v1))
+    except Exception:           # best effort, as above
+        return False
+
+
 def finding_key(p, route, msg, orig=None, ipt=None):
     """structural key of a monitor failure (matched against known_findings.json); `orig` = the component of the
     array whose value is wrong, `ipt` the point"""
@@ -2224,6 +2259,9 @@ def finding_key(p, route, msg, orig=None, ipt=None):
     if not msg and simplify_flips_inequality(p, ipt):
         key.update({"call_site": "ExpressionBase.__init__ (sympy.simplify)",
                     "symptom": "simplification changes the truth value of an inequality"})
+    elif not msg and p["kind"] == "scalar" and sympy_form_overflows(p, ipt):
+        key.update({"call_site": "parse_expr_guarded / sympy.simplify (sympy's form of the formula)",
+                    "symptom": "sympy's form of the formula overflows to NaN where the formula is finite"})
     if "of type int which has no callable" in msg or ("int too big" in msg.lower()) or "Int value is too large" in msg:
         key.update({"call_site": "make_expression_function (sympy printer)",
                     "symptom": "integer literal beyond int64 reaches a numpy ufunc"})
